@@ -338,6 +338,9 @@ class MultiThreadRunner(BaseRunner):
 
     def runner_loop_iteration(self) -> None:
         """Execute one iteration of the runner loop."""
+        # Forget workers that died since the last iteration: they must not count
+        # as capacity (nor keep being tracked) when deciding how many to spawn.
+        self._cleanup_dead_processes()
         self._scale_up_processes()
 
     def _waiting_for_results(
